@@ -23,7 +23,8 @@ def _tables(u, S, M, MT, P, B):
     u.requires(u.forall((MT,), lambda s: AND(st.at(s) >= 0, st.at(s) < S)))
     u.requires(u.forall((P, MT), lambda p, s: AND(mt.at(p, s) >= 0, mt.at(p, s) < MT, smt.at(p, s) >= 0, smt.at(p, s) < MT)))
     from tvc.unit import div_below_hint
-    div_below_hint(u, B)                                             # pomo index of a row below the batch size: idx // bs = 0
+    if B is not None:
+        div_below_hint(u, B)                                         # pomo index of a row below the batch size: idx // bs = 0
     return u.obj(F, "IndexTables", stage_table=st, machine_table=mt, stage_machine_table=smt, bs=B), st, mt, smt
 
 
@@ -120,24 +121,35 @@ def _(u):
     u.canary("step.nothing-advances", out["job_location"].at(b, j) == pre["job_location"].at(b, j))
 
 
-@unit("ffsp.reset", file=F, func="FFSPEnv._reset", props=("C07",))
+@unit("ffsp.reset", file=F, func="FFSPEnv._reset", props=("C07", "C04"))
 def _(u):
     B, J, S, M, MT, P = u.dims("B J S M MT P")
+    B0 = u.dim("B0")                                                 # batch size of an EARLIER episode run on the same env object
     u.requires(AND(P >= 1, MT >= 1, J >= 1, zint(MT) == zint(M) * zint(S)))
-    tables, st, mt, smt = _tables(u, S, M, MT, P, B)
-    tables._attrs["set_bs"] = lambda bs: None                         # (bs is the batch size already)
-    u.stub(IndexTables=lambda env: tables)                           # the index tables (itertools.permutations): arbitrary tables in range
-    env = u.obj(F, "FFSPEnv", num_job=J, num_stage=S, num_machine=M, num_machine_total=MT, device="cpu")
-    run_time = u.tensor("run_time", (B, J, MT), "i")
+    fresh, st, mt, smt = _tables(u, S, M, MT, P, None)
+    ctx = cur()
+    ctx.prefix = "stale."
+    stale, _, _, _ = _tables(u, S, M, MT, P, B0)                     # what the env still holds from that episode
+    ctx.prefix = ""
+    from tvc.unit import div_below_hint
+    div_below_hint(u, B)
+    u.stub(IndexTables=lambda env: fresh)                            # the index tables (itertools.permutations): arbitrary tables in range
+    env = u.obj(F, "FFSPEnv", num_job=J, num_stage=S, num_machine=M, num_machine_total=MT, device="cpu", tables=stale)
     td = u.td(B, run_time=((B, J, MT), "i"))
     rt = td["run_time"]
-    u.inline((F, "IndexTables.get_stage_index"), (F, "IndexTables.get_stage_machine_index"), (F, "IndexTables.get_machine_index"))
+    u.inline((F, "IndexTables.get_stage_index"), (F, "IndexTables.get_stage_machine_index"), (F, "IndexTables.get_machine_index"), (F, "IndexTables.set_bs"))
     out = u.run(F, "FFSPEnv._reset", td, [B], selfobj=env, record=False)
     b, j, jj, m = u.idx((B,), "b"), u.idx((J + 1,), "j"), u.idx((J,), "jj"), u.idx((MT,), "m")
-    u.prove("reset.clock-at-zero", AND(out["time_idx"].at(b) == 0, out["sub_time_idx"].at(b) == 0, out["stage_idx"].at(b) == st.at(0)))
-    u.prove("reset.every-job-at-the-first-stage-and-free", AND(out["job_location"].at(b, j) == 0, out["job_wait_step"].at(b, j) == 0, out["machine_wait_step"].at(b, m) == 0))
-    u.prove("reset.durations-are-the-instance-run-times", AND(out["job_duration"].at(b, jj, m) == rt.at(b, jj, m), out["job_duration"].at(b, J, m) == 0))
-    u.prove("reset.nothing-scheduled", out["schedule"].at(b, m, j) == -999999)
-    u.prove("reset.mask-offers-every-job-and-no-waiting", AND(out["action_mask"].at(b, jj), NOT(out["action_mask"].at(b, J)), NOT(out["done"].at(b))))
-    u.prove("reset.shapes", AND(*[zint(x) == zint(y) for x, y in zip(tuple(out["job_duration"].shape), (B, J + 1, MT))], tuple(out.batch_size) == (B,)))
+    u.prove("reset.clock-at-zero", AND(out["time_idx"].at(b) == 0, out["sub_time_idx"].at(b) == 0, out["stage_idx"].at(b) == st.at(0)), tags=("C07",))
+    # every row of THIS batch starts on the un-permuted machine order (row 0 of the tables), whatever batch size an earlier
+    # episode on the same env object had: the tables the env keeps are bound to the current batch size
+    tb = env._attrs["tables"]
+    u.prove("reset.tables-bound-to-this-batch", tb is not stale and (tb._attrs.get("bs") is B or (tb._attrs.get("bs") is not None and z3.simplify(zint(tb._attrs["bs"]) == zint(B)).eq(z3.BoolVal(True)))),
+            note=f"bs = {tb._attrs.get('bs')!r}")
+    u.prove("reset.every-row-on-the-unpermuted-machine-order", AND(out["machine_idx"].at(b) == mt.at(0, 0), out["stage_machine_idx"].at(b) == smt.at(0, 0)))
+    u.prove("reset.every-job-at-the-first-stage-and-free", AND(out["job_location"].at(b, j) == 0, out["job_wait_step"].at(b, j) == 0, out["machine_wait_step"].at(b, m) == 0), tags=("C07",))
+    u.prove("reset.durations-are-the-instance-run-times", AND(out["job_duration"].at(b, jj, m) == rt.at(b, jj, m), out["job_duration"].at(b, J, m) == 0), tags=("C07",))
+    u.prove("reset.nothing-scheduled", out["schedule"].at(b, m, j) == -999999, tags=("C07",))
+    u.prove("reset.mask-offers-every-job-and-no-waiting", AND(out["action_mask"].at(b, jj), NOT(out["action_mask"].at(b, J)), NOT(out["done"].at(b))), tags=("C07",))
+    u.prove("reset.shapes", AND(*[zint(x) == zint(y) for x, y in zip(tuple(out["job_duration"].shape), (B, J + 1, MT))], tuple(out.batch_size) == (B,)), tags=("C07",))
     u.canary("reset.waiting-offered", out["action_mask"].at(b, J))
